@@ -114,6 +114,21 @@ def stmt_hash(s: str) -> str:
     return hashlib.sha256(s.encode()).hexdigest()[:16]
 
 
+SPEC_FILES = ["DafRel/Model/Sem.lean", "DafRel/Spec/Preds.lean", "DafRel/Spec/History.lean",
+              "DafRel/Spec/Commute.lean"]
+
+
+def spec_hashes() -> dict[str, str]:
+    """Hashes of the specification files (reference semantics and the predicates/definitions that
+    theorem statements are written in): a statement can also be weakened by changing these."""
+    out = {}
+    for rel in SPEC_FILES:
+        path = os.path.join(LEAN, rel)
+        if os.path.exists(path):
+            out[rel] = stmt_hash(" ".join(strip_comments(open(path).read()).split()))
+    return out
+
+
 def parse_errors(output: str) -> list[str]:
     errs = []
     for m in re.finditer(r"error: (\S+?\.lean):(\d+):(\d+): (.*)", output):
@@ -173,6 +188,14 @@ def build_and_audit(prop: str, thorough: bool = False) -> LB:
         r = _lake(["build", module])
         build_ok = r.returncode == 0
         build_errs = parse_errors(r.stdout + r.stderr)
+        # --- specification files unchanged?
+        want = load_obligations().get("__spec__", {})
+        got = spec_hashes()
+        for rel, h in want.items():
+            if got.get(rel) != h:
+                lb.infra_error = (f"specification file {rel} differs from lean/obligations.json (__spec__); "
+                                  "re-register deliberately with `leanbuild.py register-spec`")
+                return lb
         # --- statements unchanged?
         stmts = theorem_statements(props_file)
         bad_names = set()
@@ -264,3 +287,9 @@ if __name__ == "__main__":
         names = sys.argv[3:] or [n for n in theorem_statements(props_file)]
         update_obligations(prop, names)
         print(f"registered {len(names)} theorems for {prop}")
+    elif sys.argv[1] == "register-spec":
+        data = load_obligations()
+        data["__spec__"] = spec_hashes()
+        with open(OBLIGATIONS, "w") as f:
+            json.dump(data, f, indent=1, sort_keys=True)
+        print("registered spec hashes:", data["__spec__"])
